@@ -23,6 +23,7 @@ from vf import lops
 from vf.monitors import STATE
 from vf.oracles.algebra import Spec
 from vf.common import Plan, crandn, held, violated, inconclusive, rng_for, nrm, pick
+from vf import repo_tests
 
 SPEC = {
     "rule": ("cases = (a) operator descriptions (all leaf classes, trees) checked for "
@@ -99,6 +100,9 @@ def plan(tier, seed):
         for i in range(1 if quick else 3):
             P.add("history", order=order, fseed=int(rng.integers(1 << 30)), fresh=True,
                   timeout=200.0)
+    if tier == "thorough" and repo_tests.available():
+        # the repository's own test suite as one more workload under the always-on monitors
+        P.add("repo-tests", timeout=1800.0, fresh=True)
     return P.cases
 
 
@@ -709,6 +713,8 @@ def _overflow_guard(case, res, runner, is_single, to_double):
 
 
 def run_case(case):
+    if case["gen"] == "repo-tests":
+        return repo_tests.run("C02")
     g = case["gen"]
     if g == "kept":
         return run_kept(case)
